@@ -513,6 +513,16 @@ decreasing_by
     apply lex3
     omega
 
+/-! ### the domain `__prepare_rings` hands over -/
+
+/-- decidable form of "the component is a symmetric simple graph with unique keys, every atom has two or three ring
+    neighbours, atom numbers ≥ 1" (`Proofs/C05SearchSound.lean: GraphOK`); the driver reports it for every request -/
+def graphOKb (rings : Adj) : Bool :=
+  decide (rings.map (·.1)).Nodup &&
+  rings.all (fun p => decide p.2.Nodup && !p.2.contains p.1 && (decide (2 ≤ p.2.length) && decide (p.2.length ≤ 3)) &&
+    p.2.all fun w => (rings.get w).contains p.1) &&
+  !rings.any (·.1 == 0)
+
 /-! ### start selection -/
 
 /-- the code before the `while` loop: the start atom, `double_bonded` as the loop sees it, and the initial levels in
